@@ -197,6 +197,13 @@ def label_obligations(raw, tu, spec, meta):
     """attach kind and label to cbmc's per-property results (also used for memoised solver results: labels are always recomputed)"""
     out = []
     fn_lo, fn_hi = meta["fn_lines"]
+    loop_nums = {}
+    for r in raw:
+        k_ = classify(r['property'], r.get('description', ''))
+        if k_ in ('loop_invariant_base', 'loop_invariant_step') and r["file"].endswith('unit.c'):
+            m_ = re.search(r'\.(\d+)$', r['property'])
+            if m_:
+                loop_nums.setdefault((k_, r["line"]), []).append(int(m_.group(1)))
     for r in raw:
         line = r["line"]
         f = r["file"]
@@ -205,15 +212,33 @@ def label_obligations(raw, tu, spec, meta):
         if f.endswith('unit.c') and line in tu.labels:
             lab, lk = tu.labels[line]
         if lab is None and f.endswith('unit.c') and kind in ('loop_invariant_base', 'loop_invariant_step'):
-            # cbmc reports the invariants of a loop one by one (suffix .N) but all at the loop head line
-            # numbering (.N) runs over ALL loop invariants of the function in textual order
-            fn_lo_, fn_hi_ = meta["fn_lines"]
-            inv_lines = [k for k in range(fn_lo_, min(fn_hi_, len(tu.lines)) + 1)
-                         if tu.lines[k - 1].lstrip().startswith('__CPROVER_loop_invariant')]
+            # cbmc reports the invariants of a loop one by one (suffix .N, numbered across the function in loop-id order, inner
+            # loops first) but all at the loop head line: within one loop the i-th smallest number belongs to the i-th invariant
+            # line of the contract block that follows the head
+            inv_lines = []
+            k = line + 1
+            while k <= len(tu.lines) and tu.lines[k - 1].lstrip().startswith('__CPROVER_'):
+                if tu.lines[k - 1].lstrip().startswith('__CPROVER_loop_invariant'):
+                    inv_lines.append(k)
+                k += 1
+            nums = sorted(loop_nums.get((kind, line), []))
             m = re.search(r'\.(\d+)$', r['property'])
-            n = int(m.group(1)) if m else 0
-            if 1 <= n <= len(inv_lines) and inv_lines[n - 1] in tu.labels:
-                lab = tu.labels[inv_lines[n - 1]][0]
+            n = int(m.group(1)) if m else -1
+            if n in nums and len(nums) == len(inv_lines):
+                il = inv_lines[nums.index(n)]
+                if il in tu.labels:
+                    lab = tu.labels[il][0]
+            else:
+                # cbmc split or merged the invariants (the numbers do not line up): the obligation is attributed to every
+                # property labelled on an invariant of this loop
+                labs = []
+                for il in inv_lines:
+                    if il in tu.labels and tu.labels[il][0]:
+                        for x in tu.labels[il][0].split(','):
+                            if x.strip() and x.strip() not in labs:
+                                labs.append(x.strip())
+                if labs:
+                    lab = ','.join(labs)
         if lab is None and f:
             lab = shim_labels().get((os.path.basename(f), line))
         if lab is None:
